@@ -195,7 +195,7 @@ Definition kf_C06_cross_type (c : render_case) : bool :=
 Definition kf_C06_zero_size (c : render_case) : bool :=
   existsb kf_zero_size_in_leaf_list (positions (sc_a (rc_script c)) (sc_b (rc_script c)) (sc_edit (rc_script c))).
 
-(* D23 (found by this property): a MAPPING that is an element of a LIST and is replaced (Replace / Match at a
+(* D33 (found by this property): a MAPPING that is an element of a LIST and is replaced (Replace / Match at a
    cost) by something else is rendered  from -> to -> to : the edit is printed a second time inside the removed
    region (see RenderModel.from_to_twice), so neither projection reads back. *)
 Definition is_mapping_node (t : tree) : bool := match t with MSet _ _ | FDict _ => true | _ => false end.
